@@ -25,7 +25,7 @@ def structural(chk: core.Check) -> None:
 def run(tier: str) -> int:
     chk = core.Check("C14", tier, "other")
     chk.encode("tel2puml/otel_to_pv/otel_to_pv.py", "handle_save_events, save_pv_event_stream_to_file")
-    chk.encode("tel2puml/pv_to_puml/pv_to_puml.py", "pv_job_files_to_event_sequence_streams, pv_job_file_to_event_sequence")
+    chk.encode("tel2puml/pv_to_puml/pv_to_puml.py", "pv_files_to_pv_streams, pv_job_files_to_event_sequence_streams, pv_job_file_to_event_sequence")
     chk.encode("tel2puml/pv_event_simulator.py", "transform_dict_into_pv_event")
     chk.encode("tel2puml/tel2puml_types.py", "PVEventMappingConfig, PVEventModel")
     chk.encode("tel2puml/otel_to_puml.py", "otel_to_puml (structure: one learner call after the dispatch)")
